@@ -165,6 +165,24 @@ impl DocumentBlock {
         matches!(self, DocumentBlock::Plain(_) | DocumentBlock::Para(_))
     }
 
+    // text of a tight list item that follows a dropped block starts a paragraph of its own
+    pub fn start_item_paragraph(&mut self, line_range: LineRange) {
+        match self {
+            DocumentBlock::OrderedList(OrderedList { items })
+            | DocumentBlock::BulletList(BulletList { items }) => {
+                if let Some(item) = items.last_mut() {
+                    if item.last().map_or(false, |block| block.is_text_block()) {
+                        item.push(DocumentBlock::Para(Para {
+                            line_range,
+                            inlines: Vec::new(),
+                        }));
+                    }
+                }
+            }
+            _ => {}
+        }
+    }
+
     pub fn append_inline(&mut self, inline: DocumentInline, line_range: LineRange) {
         match self {
             DocumentBlock::Plain(plain) => plain.inlines.push(inline),
